@@ -121,4 +121,111 @@ class C05f(Obligation):
                   'the announced rename is the module file resp. the package directory')
 
 
-OBLIGATIONS = [C05a, C05f]
+from jedi.inference import references as jrefs  # noqa: E402
+
+
+class C05g(Obligation):
+    id = 'C05.g'
+    title = 'references of a global variable: the bindings in EVERY function that declares it global are collected'
+    pattern = 'P3 (global filter, context creation and the per-context scan are stubs)'
+    assumptions = ('G<=3 functions declare the name global; the per-context name scan is a stub yielding one marker per context',)
+
+    def configs(self, tier):
+        return [dict(G=g) for g in (0, 1, 2, 3)]
+
+    def scenario(self, ctx, cfg):
+        G = cfg['G']
+        search = ctx.str('search_name', maxlen=3)
+        globals_ = [Obj(tag='global-stmt-%d' % i, tree_name=Obj(tag='tn%d' % i), string_name=search) for i in range(G)]
+        scanned = []
+
+        def add_names(context, string_name):
+            scanned.append((context, string_name))
+            yield ('name-in', context)
+        ctx.patch(jrefs, '_add_names_in_same_context', add_names)
+        module_context = Obj(get_global_filter=lambda: Obj(get=lambda n: list(globals_)),
+                             create_context=lambda tree_name: 'context-of-' + tree_name.tag)
+        start = Obj(tree_name=Obj(), get_root_context=lambda: module_context)
+        builtin = Obj(tree_name=None)
+        ctx.force(jrefs._find_global_variables)
+        out = ctx.call(lambda: list(jrefs._find_global_variables([builtin, start], search)))
+        ctx.check(out.exc is None, 'never raises')
+        if out.exc is not None:
+            return
+        res = out.value
+        for i, g in enumerate(globals_):
+            ctx.check(g in res, 'every global declaration is a reference')
+            ctx.check(('name-in', 'context-of-tn%d' % i) in res, 'the bindings of every declaring function are collected')
+        ctx.check(len(res) == 2 * G, 'nothing else')
+        for c, n in scanned:
+            ctx.check(n == search, 'the scan looks for the searched spelling')
+
+
+import itertools  # noqa: E402
+
+
+class Tok:
+    def __init__(self, tag):
+        self.tag = tag
+        self.tree_name = self
+        self.value = 'x'
+
+    def __repr__(self):
+        return self.tag
+
+
+class C05b(Obligation):
+    id = 'C05.b'
+    title = 'reference sets are closed: asking from any token yields the whole connected set, whatever the scan order'
+    pattern = 'P3 (goto closures of the same-spelled tokens are symbolic; real merge loop of find_references)'
+    assumptions = (
+        'tokens: 2 definitions and 3 usages of one spelling; the goto closure of a definition is itself, of a usage '
+        'itself plus a non-empty symbolic subset of the definitions (the shape real closures have); the scan order is '
+        'source order (quick) or any permutation (thorough); the start token is symbolic. With 3 definitions the '
+        'merge loop is order-dependent in the abstract (6 480 of 1 497 960 enumerated cases) - no program realising '
+        'such closures was found, so that family is outside the claim (recorded as unconfirmed candidate)',
+        '_find_defining_names, _find_names and the module are stubs; only_in_module=True',
+    )
+
+    def configs(self, tier):
+        return [dict(orders='source')] if tier == 'quick' else [dict(orders='all')]
+
+    def scenario(self, ctx, cfg):
+        defs = [Tok('d0'), Tok('d1')]
+        uses = [Tok('u0'), Tok('u1'), Tok('u2')]
+        toks = defs + uses
+        subsets = [(defs[0],), (defs[1],), (defs[0], defs[1])]
+        closures = {d: [d] for d in defs}
+        for u in uses:
+            closures[u] = [u] + list(ctx.oneof('%s_refers_to' % u.tag, subsets))
+        if cfg['orders'] == 'source':
+            order = list(toks)
+        else:
+            perms = list(itertools.permutations(range(5)))
+            order = [toks[i] for i in perms[ctx.choice('scan_order', len(perms))]]
+        start = toks[ctx.choice('start_token', 5)]
+        ctx.int('unused')
+        module_context = Obj(inference_state=Obj(flow_analysis_enabled=True, project=None),
+                             tree_node=Obj(get_used_names=lambda: {'x': list(order)}))
+        for t in toks:
+            t.get_root_context = lambda: module_context
+        ctx.patch(jrefs, '_find_defining_names', lambda mc, t: list(closures[t]))
+        ctx.patch(jrefs, '_find_names', lambda mc, t: list(closures[t]))
+        ctx.force(jrefs.find_references)
+        out = ctx.call(lambda: set(jrefs.find_references(module_context, start, only_in_module=True)))
+        ctx.check(out.exc is None, 'never raises')
+        if out.exc is not None:
+            return
+        comp = set([start])
+        changed = True
+        while changed:
+            changed = False
+            for t in toks:
+                c = set(closures[t])
+                if c & comp and not c <= comp:
+                    comp |= c
+                    changed = True
+        ctx.check(out.value == comp, 'the result is the connected component of the start token')
+
+
+OBLIGATIONS = [C05a, C05b, C05f, C05g]
